@@ -28,8 +28,8 @@ func register(p *Property) {
 // also runs: the ones whose checks caught seeded breakages of the property
 // that its own rules did not (DESIGN.md §9), i.e. whose behaviours overlap.
 var Related = map[string][]string{
-	"C01": {"C08", "C10"}, "C02": {"C03", "C08"}, "C03": {"C02", "C08"}, "C04": {"C12", "C11", "C17"},
-	"C05": {"C03", "C13"}, "C07": {"C12", "C09", "C18"}, "C08": {"C01", "C03"}, "C09": {"C07"},
+	"C01": {"C08", "C10"}, "C02": {"C03", "C08"}, "C03": {"C02", "C08", "C20"}, "C04": {"C12", "C11", "C17"},
+	"C05": {"C03", "C13", "C07"}, "C07": {"C12", "C09", "C18"}, "C08": {"C01", "C03"}, "C09": {"C07"},
 	"C10": {"C17", "C01"}, "C11": {"C17", "C13"}, "C12": {"C15", "C16", "C07", "C17"}, "C13": {"C14", "C11"},
 	"C14": {"C13"}, "C15": {"C12", "C13"}, "C16": {"C12", "C17"}, "C17": {"C12", "C10", "C11"},
 	"C18": {"C09", "C07"}, "C19": {"C10", "C11", "C06"}, "C20": {"C03"},
